@@ -1,0 +1,40 @@
+package cast
+
+import (
+	"fmt"
+	"strings"
+)
+
+// groupKeyEscape escapes the separator (and itself) inside a grouping-key component.
+const groupKeyEscape = '\\'
+
+// groupKeyNull is the component written for a NULL/missing grouping value. An escaped
+// component never contains the escape character followed by 'N', so it cannot collide
+// with any real value (including the empty string).
+const groupKeyNull = `\N`
+
+// GroupKeyPart encodes one component of a composite grouping key that is later joined
+// with sep. Distinct value tuples always yield distinct joined keys: occurrences of sep
+// and of the escape character inside the value are escaped, and NULL (nil) is encoded
+// differently from the empty string. Values without those characters are unchanged.
+func GroupKeyPart(val any, sep byte) string {
+	if val == nil {
+		return groupKeyNull
+	}
+	s, err := ToStringE(val)
+	if err != nil {
+		s = fmt.Sprintf("%v", val)
+	}
+	if strings.IndexByte(s, sep) < 0 && strings.IndexByte(s, groupKeyEscape) < 0 {
+		return s
+	}
+	var b strings.Builder
+	b.Grow(len(s) + 4)
+	for i := 0; i < len(s); i++ {
+		if s[i] == sep || s[i] == groupKeyEscape {
+			b.WriteByte(groupKeyEscape)
+		}
+		b.WriteByte(s[i])
+	}
+	return b.String()
+}
